@@ -20,7 +20,18 @@ _AST_CACHE = {}
 SOURCE_HASHES = {}
 
 
+class HostFn(object):
+    """a callable supplied by the contract harness (e.g. the user's callback of dmrg_cross): fn(ex, args, kwargs)"""
+    def __init__(self, fn, name='callback'):
+        self.fn, self.name = fn, name
+
+
 class PathLimit(Exception):
+    pass
+
+
+class PathEnd(Exception):
+    """the path ends here by construction (back edge of a loop summarised by its invariant): nothing after it is executed"""
     pass
 
 
@@ -267,6 +278,7 @@ class Exec(object):
         self.arg_objs = {}        # id(SObj) -> description
         self.keepalive = []
         self.events = []          # callee events (for contracts keyed by event)
+        self.loop_contracts = {}  # (function qualname, ordinal of the loop in the function) -> invariant(ex, frame) -> {name: AbstractValue}
         self.call_hooks = {}      # qualname -> python callable(ex, args, kwargs) replacing the body (modular use of a contract)
         self.loop_guard = 0
         self.ghost_facts = []
@@ -437,6 +449,8 @@ class Exec(object):
             return self.optable.call_method(self, f.obj, f.name, list(args), kwargs)
         if isinstance(f, self.optable.BI):
             return self.optable.call_builtin(self, f, list(args), kwargs)
+        if isinstance(f, HostFn):
+            return f.fn(self, list(args), kwargs)
         raise PyRaise('TypeError', '%r object is not callable' % type(f).__name__)
 
     def instantiate(self, cls, args, kwargs):
@@ -753,7 +767,109 @@ class Exec(object):
                 fr.locals[name] = prev
         self.notes.append(('loop_contract', '%s: symbolic range loop summarised (one arbitrary iteration checked, assigned names havocked)' % getattr(mod, 'name', '?')))
 
+    # ---- loop contracts (inductive invariants stated in the sidecar contracts)
+    def _loop_ordinal(self, st, fr):
+        func = fr.func
+        if func is None or getattr(func, 'node', None) is None:
+            return None
+        cache = getattr(func, '_loop_ordinals', None)
+        if cache is None:
+            cache = {}
+            k = 0
+
+            def walk(n):
+                nonlocal k
+                for ch in ast.iter_child_nodes(n):
+                    if isinstance(ch, (ast.FunctionDef, ast.Lambda, ast.ClassDef)):
+                        continue
+                    if isinstance(ch, (ast.For, ast.While)):
+                        cache[id(ch)] = k
+                        k += 1
+                    walk(ch)
+            walk(func.node)
+            func._loop_ordinals = cache
+        return cache.get(id(st))
+
+    def _loop_contract(self, st, fr):
+        if not self.loop_contracts:
+            return None
+        k = self._loop_ordinal(st, fr)
+        if k is None:
+            return None
+        return self.loop_contracts.get((fr.func.qualname, k))
+
+    def _run_loop_contract(self, st, fr, mod, cls, spec, iter_values=None):
+        """inductive invariant: (1) it holds at loop entry, (2) from an ARBITRARY state satisfying it one iteration re-establishes
+        it (the path ends at the back edge), (3) after the loop the state is an arbitrary state satisfying it.  `return` / `raise`
+        inside the body leave the function from such an arbitrary iteration and are checked against the function's postcondition as
+        usual.  Names assigned in the body that the invariant does not mention are undefined afterwards."""
+        key = '%s#loop%d' % (fr.func.qualname, self._loop_ordinal(st, fr))
+        inv = spec(self, fr)
+        ob = getattr(self, 'ob', None)
+
+        def check(stage):
+            for name, av in inv.items():
+                for oname, cond in av.check(self, fr.locals.get(name)):
+                    if ob is not None:
+                        if isinstance(cond, str):
+                            ob.fail('loop_inv.%s.%s.%s.%s' % (key, stage, name, oname), 'invariant', cond)
+                        else:
+                            ob.prove('loop_inv.%s.%s.%s.%s' % (key, stage, name, oname), cond, 'invariant')
+        check('entry')
+        assigned = set()
+        for n in ast.walk(ast.Module(body=st.body, type_ignores=[])):
+            if isinstance(n, ast.Name) and isinstance(n.ctx, ast.Store):
+                assigned.add(n.id)
+        tnames = set(n.id for n in ast.walk(st.target) if isinstance(n, ast.Name)) if isinstance(st, ast.For) else set()
+        for name, av in inv.items():
+            fr.locals[name] = av.fresh(self, name)
+        for a in assigned - set(inv) - tnames:
+            fr.locals.pop(a, None)
+        self.notes.append(('loop_contract', '%s summarised by its invariant over %s' % (key, sorted(inv))))
+        if self.decide(fresh_bool('iterate')):
+            # an arbitrary iteration
+            if isinstance(st, ast.For):
+                self.assign(st.target, iter_values(), fr, mod, cls)
+            else:
+                if not self.truth(self.eval(st.test, fr, mod, cls)):
+                    raise DeadPath()
+            try:
+                self.exec_block(st.body, fr, mod, cls)
+            except _Continue:
+                pass
+            except _Break:
+                # leaves the loop from an arbitrary iteration: continue after the loop with the current state
+                return
+            check('preserved')
+            raise PathEnd()
+        # the loop is left normally (exhausted / condition false) in an arbitrary state satisfying the invariant
+        if isinstance(st, ast.While):
+            if self.truth(self.eval(st.test, fr, mod, cls)):
+                raise DeadPath()
+        else:
+            for a in tnames:
+                fr.locals.pop(a, None)
+        self.exec_block(st.orelse, fr, mod, cls)
+
     def st_For(self, st, fr, mod, cls):
+        spec = self._loop_contract(st, fr)
+        if spec is not None:
+            itv = self.eval(st.iter, fr, mod, cls)
+
+            def one():
+                if isinstance(itv, range):
+                    if len(itv) == 0:
+                        raise DeadPath()
+                    v = fresh_int('loopvar')
+                    self.pc.add(z3.And(v >= itv.start, v < itv.stop) if itv.step > 0 else z3.And(v <= itv.start, v > itv.stop))
+                    return v
+                n_ = getattr(itv, 'n', None)
+                if n_ is not None:
+                    v = fresh_int('loopvar')
+                    self.pc.add(z3.And(v >= 0, v < to_int(n_)))
+                    return v
+                raise OutOfSubset('loop contract on a loop that is not a range loop')
+            return self._run_loop_contract(st, fr, mod, cls, spec, one)
         try:
             it = self.iterate(self.eval(st.iter, fr, mod, cls), live=True)
         except OutOfSubset as e:
@@ -774,6 +890,9 @@ class Exec(object):
             self.exec_block(st.orelse, fr, mod, cls)
 
     def st_While(self, st, fr, mod, cls):
+        spec = self._loop_contract(st, fr)
+        if spec is not None:
+            return self._run_loop_contract(st, fr, mod, cls, spec)
         n = 0
         while self.truth(self.eval(st.test, fr, mod, cls)):
             n += 1
@@ -1246,6 +1365,8 @@ def run_paths(body, max_paths=2000, repo=None, timeout_ms=None, max_decisions=40
             res = ('limit', str(e))
         except DeadPath:
             res = ('dead', None)
+        except PathEnd:
+            res = ('end', None)
         except (_Break, _Continue, _Return):
             res = ('oos', OutOfSubset('control flow escaped'))
         work.extend(ex.new_prefixes)
